@@ -166,9 +166,10 @@ inductive In where
   /-- `ProposalMessage`: `v`/`total` = block and part count of the part-set header, `signer` = index of the validator whose key
   signed it (-1: nobody's), `typ` = proposal type byte (0x20 normal, 0x21 = 33 recover) -/
   | proposal (h r : Nat) (pol : Int) (v : Value) (total : Nat) (signer : Int) (typ : Nat)
-  /-- `BlockPartMessage`: part `idx` of the part set of block `pv`; `vOK`/`cOK` = `ValidateBlock` / evidence+`CheckBlock`
-  verdicts of the real code for that block at this node -/
-  | part (h r : Nat) (pv : Value) (idx : Nat) (vOK cOK : Bool)
+  /-- `BlockPartMessage`: part `idx` of the part set of block `pv`; `vOK`/`cOK` = `ValidateBlock` / `checkBlockEvidence`+`CheckBlock`
+  verdicts of the real code for that block at this node; `dec` = the complete part set decodes to a block with header, data and
+  last commit (a Byzantine proposer can encode one that does not: the parts are kept, `ProposalBlock` stays nil) -/
+  | part (h r : Nat) (pv : Value) (idx : Nat) (vOK cOK dec : Bool)
   /-- `VoteMessage` from peer `src` (the node's own index = internal); `tot` = part count of the block id -/
   | vote (t h r idx : Nat) (v : Value) (tot : Nat) (src : Nat) (ok : Bool)
   | timeout (h r st : Nat)
@@ -423,7 +424,7 @@ def blockCompleted (s3 : St) (h : Nat) (hasMaj : Bool) : St :=
   else s3
 
 /-- `addProposalBlockPart` -/
-def addPart (s : St) (h : Nat) (pv : Value) (idx : Nat) : St :=
+def addPart (s : St) (h : Nat) (pv : Value) (idx : Nat) (dec : Bool) : St :=
   if s.height ≠ h then s
   else
     match s.pbp with
@@ -436,6 +437,7 @@ def addPart (s : St) (h : Nat) (pv : Value) (idx : Nat) : St :=
         let ps' := { ps with got := idx :: ps.got }
         let s1 := { s with pbp := some ps' }
         if ps'.got.length ≠ ps.total then s1
+        else if !dec then s1     -- decode error / missing header, data or last commit: `cs.ProposalBlock = nil`, error returned
         else
           let s2 := { s1 with pb := ps.v }
           blockCompleted (validOnComplete s2) h (s2.pvs s2.round).maj23.isSome
@@ -497,7 +499,10 @@ def recordVote (s : St) (t r idx : Nat) (v : Value) (src : Nat) (ok : Bool) : St
 
 /-- `addVote` (through `tryAddVote`; errors only feed logs and the evidence pool) -/
 def addVote (s : St) (t vh r idx : Nat) (v : Value) (src : Nat) (ok : Bool) : St :=
-  if vh + 1 = s.height then s          -- LastCommit straggler (no transition with SkipTimeoutCommit = false) or wrong height
+  -- a precommit for the previous height: wrong step/type → ErrVoteHeightMismatch; at the first height there is no LastCommit
+  -- → ErrVoteHeightMismatch (fix 26762b7; before it `cs.LastCommit.AddVote` on the nil vote set panicked); otherwise a LastCommit
+  -- straggler, which causes no transition with SkipTimeoutCommit = false.  In every case: no change, no output, no panic.
+  if vh + 1 = s.height then s
   else if vh ≠ s.height then s
   else if t ≠ tPrevote ∧ t ≠ tPrecommit then s
   else
@@ -536,7 +541,7 @@ def stepCore (s0 : St) (i : In) : St :=
   if s.dead then s else
   match i with
   | .proposal h r pol v total signer typ => setProposal (learn s v total) h r pol v total signer typ
-  | .part h _ pv idx vOK cOK => addPart { s with okv := aset s.okv pv (vOK, cOK) } h pv idx
+  | .part h _ pv idx vOK cOK dec => addPart { s with okv := aset s.okv pv (vOK, cOK) } h pv idx dec
   | .vote t h r idx v tot src ok => addVote (learn s v tot) t h r idx v src ok
   | .timeout h r st => handleTimeout s h r st
   | .txs => enterPropose s s.height 0
